@@ -283,9 +283,9 @@ func c31Hist(e0, s0 uint64, path []c31Op) func() string {
 func TestVerifC31Exhaustive(t *testing.T) {
 	vs.OnlyShard0(t)
 	st := vs.New("C31", t)
-	maxLen := 5
+	maxLen := 4
 	if vs.Thorough() {
-		maxLen = 6
+		maxLen = 5
 	}
 	vals := []uint64{0, 1, 2, 3}
 	var seqs, refused int64
